@@ -4,7 +4,9 @@
 Usage: tools/own_mutants.py [budget_s] [only-id ...]   -> table on stdout, JSON in /verif/seeded/own_matrix.json"""
 import json, os, re, subprocess, sys, time
 
-R = "/repo"
+LAB = os.environ.get("LAB")  # name of a lab created by tools/lab.sh (isolated copy); default: /repo and /verif in place
+R = f"/tmp/lab/{LAB}/repo" if LAB else "/repo"
+V = f"/tmp/lab/{LAB}/verif" if LAB else "/verif"
 MUTS = [
  # id, property, file, old, new, note
  ("o01-mv-read-inclusive", "C01", "src/incarnation_db.rs",
@@ -116,6 +118,87 @@ MUTS = [
   "                let reserve_mode = ReserveMode::from_planner(txid, self.reserve_planner.as_deref());",
   "                let reserve_mode = ReserveMode::from_planner(txid - start, self.reserve_planner.as_deref());",
   "reserve planner keyed by replay-relative index on the sequential path"),
+ # ---- second batch -------------------------------------------------------------------------
+ ("o29-stale-mv-write-kept", "C01", "src/scheduler.rs",
+  "                        if !write_set.contains(location) &&\n                            let Some(mut written_transactions) = self.mv_memory.get_mut(location)\n                        {\n                            written_transactions.remove(&txid);\n                        }",
+  "                        let _ = location;",
+  "a location written by the previous incarnation but not by the new one keeps its stale version"),
+ ("o30-validation-claim-skips-unconfirmed", "C15", "src/scheduler.rs",
+  "                    TransactionStatus::Executed | TransactionStatus::Unconfirmed => {\n                        tx.status = TransactionStatus::Validating;",
+  "                    TransactionStatus::Executed => {\n                        tx.status = TransactionStatus::Validating;",
+  "a rewound Unconfirmed transaction is not validated again"),
+ ("o31-validate-conflict-no-rewind", "C02", "src/scheduler.rs",
+  "        tx_state.status = if conflict {\n            self.scheduler_ctx.rewind_validation_to(txid + 1);\n            TransactionStatus::Conflict",
+  "        tx_state.status = if conflict {\n            TransactionStatus::Conflict",
+  "a failed validation does not rewind the validation of later transactions"),
+ ("o32-exec-conflict-no-rewind", "C02", "src/scheduler.rs",
+  "        if conflict {\n            self.scheduler_ctx.rewind_validation_to(txid + 1);\n        } else {",
+  "        if conflict {\n        } else {",
+  "an execution that ends blocked / in error does not rewind the validation of later transactions"),
+ ("o33-release-before-publish", "C16", "src/scheduler.rs",
+  "                        self.scheduler_ctx.publish_commit(next_commit_idx);\n",
+  "                        self.tx_dependency.commit(commit_idx);\n                        self.scheduler_ctx.publish_commit(next_commit_idx);\n",
+  "the commit loop releases the successor before (and after) publishing the committed boundary"),
+ ("o34-key-tx-barrier-at-boundary", "C16", "src/tx_dependency.rs",
+  "        if txid > commit_idx.get() {\n            state.dependency = Some(txid);",
+  "        if txid >= commit_idx.get() {\n            state.dependency = Some(txid);",
+  "a transaction that errs exactly at the commit boundary parks behind a barrier nobody lifts"),
+ ("o35-delete-no-storage-reset", "C08", "src/incarnation_db.rs",
+  "                    self.publish_storage_reset(*address, estimate, &mut write_set);\n                    continue",
+  "                    continue",
+  "a self-destruct publishes no storage reset marker"),
+ ("o36-reset-read-not-recorded", "C08", "src/incarnation_db.rs",
+  "        self.read_set.insert(reset_location, reset_version);\n",
+  "        if reset_txid.is_some() {\n            self.read_set.insert(reset_location, reset_version);\n        }\n",
+  "a storage read that saw no reset marker does not record the marker location in its read set"),
+ ("o37-handoff-no-validation-rewind", "C15", "src/scheduler.rs",
+  "        if let Some(next) = next {\n            self.scheduler_ctx.rewind_validation_to(txid);\n            drop(tx_state);",
+  "        if let Some(next) = next {\n            drop(tx_state);",
+  "a worker that takes the successor by direct hand-off does not offer its own transaction for validation"),
+ ("o38-err-no-estimate-marking", "C02", "src/scheduler.rs",
+  "                    write_set = std::mem::take(&mut last_result.write_set);\n                    self.mark_mv_estimate(txid, &write_set);",
+  "                    write_set = std::mem::take(&mut last_result.write_set);",
+  "an attempt that ends in an EVM error leaves its previous incarnation's writes unmarked"),
+ ("o39-validate-no-estimate-marking", "C02", "src/scheduler.rs",
+  "            self.mark_mv_estimate(txid, &result.write_set);\n",
+  "",
+  "a failed validation does not mark the transaction's writes as estimates"),
+ ("o40-code-read-unversioned", "C09", "src/incarnation_db.rs",
+  "            read_version = ReadVersion::MvMemory(TxVersion::new(txid, entry.incarnation));\n        }\n        // 2. read from database\n        if result.is_none() {",
+  "            read_version = ReadVersion::MvMemory(TxVersion::new(txid, 1));\n        }\n        // 2. read from database\n        if result.is_none() {",
+  "a code read records incarnation 1 of its writer instead of the incarnation it saw"),
+ ("o41-basic-publish-skips-code-only-change", "C09", "src/incarnation_db.rs",
+  "                (code_changed ||\n                    account_snapshot.is_none_or(|basic| {",
+  "                (account_snapshot.is_none_or(|basic| {",
+  "the Basic version is not republished when only the code changed"),
+ ("o42-finality-notify-off-by-one", "C17", "src/scheduler.rs",
+  "        if txid == self.scheduler_ctx.finality_idx() {\n            self.finality_wait.notify();",
+  "        if txid + 1 == self.scheduler_ctx.finality_idx() {\n            self.finality_wait.notify();",
+  "validate() notifies the finality thread for the wrong index"),
+ ("o43-commit-wait-predicate", "C17", "src/scheduler.rs",
+  "                    !self.is_aborted() && commit_idx >= self.scheduler_ctx.finality_idx()\n",
+  "                    commit_idx >= self.scheduler_ctx.finality_idx()\n",
+  "the commit thread's wait predicate ignores the abort flag"),
+ ("o44-nonce-overflow-commits", "C03", "src/scheduler/ordered_commit.rs",
+  "                    if tx_env.nonce == u64::MAX && expect == u64::MAX {\n                        // Leave the speculative result uncommitted and let sequential execution\n                        // classify the nonce overflow as an invalid transaction skip.\n                        return Ok(CommitOutcome::NeedsSequentialFallback);\n                    }\n",
+  "",
+  "a transaction with nonce u64::MAX matching the state nonce is committed instead of skipped"),
+ ("o45-deferred-reward-dropped-when-absent", "C07", "src/scheduler/ordered_commit.rs",
+  "            let mut account = Account::from(reward.apply_to(info));\n            account.mark_touch();\n            let _ = state.insert(self.beneficiary, account);",
+  "            if info.is_some() {\n                let mut account = Account::from(reward.apply_to(info));\n                account.mark_touch();\n                let _ = state.insert(self.beneficiary, account);\n            }",
+  "a deferred reward is not credited to a beneficiary that does not exist yet"),
+ ("o46-frontier-publish-skip-lt", "C15", "src/scheduler/context.rs",
+  "        if index < frontier {\n            return;\n        }\n",
+  "        if index <= frontier {\n            return;\n        }\n",
+  "the frontier publisher skips the index that equals the current frontier"),
+ ("o47-storage-known-ignores-none", "C10", "src/parallel_state.rs",
+  "        let is_storage_known =\n            self.cache.accounts.get(&address).is_some_and(|account| {\n                account.status.is_storage_known() || account.account.is_none()\n            });",
+  "        let is_storage_known =\n            self.cache.accounts.get(&address).is_some_and(|account| account.status.is_storage_known());",
+  "storage of a cached non-existing account is fetched from the database"),
+ ("o48-created-keeps-cached-storage", "C10", "src/parallel_state.rs",
+  "                    self.get_account_mut(address).newly_created(info.clone(), changed_storage);\n                self.storage.remove(&address);",
+  "                    self.get_account_mut(address).newly_created(info.clone(), changed_storage);",
+  "creating an account does not clear its cached storage"),
 ]
 
 def apply(m):
@@ -151,7 +234,7 @@ def main():
     for m in MUTS:
         mid, prop = m[0], m[1]
         if only and mid not in only: continue
-        rc, o = sh("git status --short", cwd=R)
+        rc, o = sh("git status --short -uno", cwd=R)
         if o.strip():
             print("repo not clean, abort"); return
         if not apply(m):
@@ -162,7 +245,7 @@ def main():
         baseline_ok = "95 passed; 0 failed" in o
         res = {"property": prop, "note": m[5], "baseline": o.strip()[:80], "baseline_ok": baseline_ok}
         if baseline_ok:
-            rc, o = sh(f"./check {prop} quick", cwd="/verif", env={"VERIF_BUDGET_S": budget, "VERIF_MIRI_ITERS": "6"})
+            rc, o = sh(f"./check {prop} quick", cwd=V, env={"VERIF_BUDGET_S": budget, "VERIF_MIRI": os.environ.get("VERIF_MIRI", "0")})
             viol = [l for l in o.splitlines() if l.startswith("VIOLATION")]
             classes = [l.strip() for l in o.splitlines() if "finding class" in l]
             summary = [l for l in o.splitlines() if l.startswith(prop + " ")]
